@@ -148,6 +148,19 @@ func applyEdit(seed string, op string, pos int, tok string) string {
 		toks = append(toks[:i:i], toks[i+1:]...)
 	case "dup":
 		toks = append(toks[:i+1:i+1], toks[i:]...)
+	case "del2": // two consecutive tokens (a separator and an element)
+		j := i + 2
+		if j > len(toks) {
+			j = len(toks)
+		}
+		toks = append(toks[:i:i], toks[j:]...)
+	case "dup2":
+		j := i + 2
+		if j > len(toks) {
+			j = len(toks)
+		}
+		pair := append([]string{}, toks[i:j]...)
+		toks = append(toks[:j:j], append(pair, toks[j:]...)...)
 	case "swap":
 		j := (i + 1) % len(toks)
 		toks[i], toks[j] = toks[j], toks[i]
